@@ -25,3 +25,73 @@ Example C17_ind_example :
   ind_qtt_to_tt1 3 [1; 0; 1; 0; 0; 0; 0; 1; 1] = Ok [5; 0; 6] /\
   ind_tt_to_qtt1 6 [1] = Err ValueError.
 Proof. repeat split. Qed.
+
+(* ------------------------------------------------------------------------------------------------------------
+   Core / tensor conversions (Model/Qtt.v), over every commutative ring. *)
+From Coq Require Import ZArith.
+From TV Require Import Lin.Mat TT.Chain Model.Qtt Proofs.QttP Proofs.QttP2.
+
+(* qtt_to_tt: for every d, every q >= 1, every QTT-tensor (d*q cores of mode size 2, matching ranks): the call succeeds,
+   returns d cores, and the entry at a multi-index equals the QTT entry at its little-endian binary expansion *)
+Theorem C17_qtt_to_tt_denote : forall T (K : ops T), rng K -> forall (Y : list (core T)) q d idx,
+  1 <= q -> length Y = d * q -> chain 1 Y 1 -> Forall (fun G => cn G = 2) Y ->
+  length idx = d -> Forall (fun i => i < 2 ^ q) idx ->
+  exists Z, qtt_to_tt K Y q = Ok Z /\ length Z = d /\ get K Z idx = get K Y (flat_map (bits_le q) idx).
+Proof. intros T K Rth Y q d idx. exact (qtt_to_tt_denote K Rth Y q d idx). Qed.
+
+(* ... the result is a TT-tensor with mode sizes 2^q whose ranks are the QTT-ranks at the mode boundaries *)
+Theorem C17_qtt_to_tt_shape : forall T (K : ops T), rng K -> forall q, 1 <= q -> forall d (Y : list (core T)) r rl,
+  length Y = d * q -> chain r Y rl -> Forall (fun G => cn G = 2) Y ->
+  chain r (map (merged K) (groups q d Y)) rl /\ Forall (fun G => cn G = 2 ^ q) (map (merged K) (groups q d Y)).
+Proof. intros T K Rth q Hq d Y r rl. exact (groups_chain K q Hq d Y r rl). Qed.
+
+(* tt_to_qtt when every truncated factorisation is exact (fac_ok: A = U V, i.e. nothing is cut): for every d, every
+   q >= 1 (mode size 2^q), every rank profile: d*q cores of mode size 2, boundary ranks 1, and the entry at the
+   binary expansion of a multi-index equals the entry of the original tensor *)
+Theorem C17_tt_to_qtt_denote : forall T (K : ops T), rng K ->
+  forall (msvd2 : nat -> nat -> mat T -> mat T * mat T),
+  (forall k c A, fac_ok K A (fst (msvd2 k c A)) (snd (msvd2 k c A))) ->
+  forall q (Y : list (core T)) idx, chain 1 Y 1 -> Forall (fun G => cn G = 2 ^ S q /\ 0 < cr1 G) Y ->
+  length idx = length Y -> Forall (fun i => i < 2 ^ S q) idx ->
+  exists Z, tt_to_qtt K msvd2 Y = Ok Z /\ length Z = length Y * S q /\ chain 1 Z 1 /\
+    Forall (fun Q => cn Q = 2) Z /\ get K Z (flat_map (bits_le (S q)) idx) = get K Y idx.
+Proof. intros T K Rth msvd2 H q Y idx. exact (tt_to_qtt_denote K Rth msvd2 H q Y idx). Qed.
+
+(* bonds between modes keep the TT-ranks (each group of q cores is a chain from r_k to r_{k+1}); every bond created
+   inside a mode is the inner size of a factorisation, hence <= the cap whenever the factorisations respect it *)
+Theorem C17_tt_to_qtt_ranks : forall T (K : ops T), rng K ->
+  forall (msvd2 : nat -> nat -> mat T -> mat T * mat T),
+  (forall k c A, fac_ok K A (fst (msvd2 k c A)) (snd (msvd2 k c A))) ->
+  forall q (Y : list (core T)) rmax, chain 1 Y 1 -> Forall (fun G => cn G = 2 ^ S q /\ 0 < cr1 G) Y ->
+  (forall k c B, mc (fst (msvd2 k c B)) <= rmax) ->
+  exists Zs, tt_to_qtt K msvd2 Y = Ok (concat Zs) /\
+    Forall2 (fun G Zc => length Zc = S q /\ chain (cr1 G) Zc (cr2 G)) Y Zs /\
+    Forall (fun Zc => Forall (fun Q => cr1 Q <= rmax) (tl Zc)) Zs.
+Proof. intros T K Rth msvd2 H q Y rmax. exact (tt_to_qtt_ranks K Rth msvd2 H q Y rmax). Qed.
+
+(* one core: the denotation step by step (any entering row vector) *)
+Theorem C17_core_tt_to_qtt_spec : forall T (K : ops T), rng K -> forall msvd,
+  (forall c A, fac_ok K A (fst (msvd c A)) (snd (msvd c A))) ->
+  forall (G : core T) k, cn G = 2 ^ S k -> 0 < cr1 G ->
+  exists Z, core_tt_to_qtt K msvd G = Ok Z /\ length Z = S k /\ chain (cr1 G) Z (cr2 G) /\
+    Forall (fun Q => cn Q = 2) Z /\
+    (forall rmax, (forall c0 B, mc (fst (msvd c0 B)) <= rmax) -> Forall (fun Q => cr1 Q <= rmax) (tl Z)) /\
+    forall v i, length v = cr1 G -> i < 2 ^ S k -> vstep K v G i = run K v Z (bits_le (S k) i).
+Proof. intros T K Rth msvd H G k. exact (core_tt_to_qtt_spec K Rth msvd H G k). Qed.
+
+(* non-power-of-two mode size: ValueError before any factorisation *)
+Theorem C17_core_tt_to_qtt_rejects : forall T (K : ops T) sv (G : core T),
+  (forall q, cn G <> 2 ^ q) -> core_tt_to_qtt K sv G = Err ValueError.
+Proof. intros T K sv G. exact (core_tt_to_qtt_rejects K sv G). Qed.
+
+(* non-vacuity: the contract fac_ok is satisfiable in every ring (A = A * Id), and a concrete conversion over Z *)
+Example C17_fac_ok_example : forall T (K : ops T), rng K -> forall A : mat T, fac_ok K A A (mid K (mc A)).
+Proof. intros T K Rth A. exact (fac_ok_id K Rth A). Qed.
+Example C17_qtt_example :
+  let Y := [mk_core 1 2 2 [[[1; 2]; [3; 4]]]; mk_core 2 2 1 [[[5]; [6]]; [[7]; [8]]]]%Z in
+  match qtt_to_tt OZ Y 2 with
+  | Ok Z => map (fun i => get OZ Z [i]) [0; 1; 2; 3] = [19; 43; 22; 50]%Z /\
+            map (fun b => get OZ Y b) [[0; 0]; [1; 0]; [0; 1]; [1; 1]] = [19; 43; 22; 50]%Z
+  | Err _ => False
+  end.
+Proof. vm_compute. split; reflexivity. Qed.
